@@ -68,7 +68,7 @@ Definition round_up (roundp : bool) (c : conv) : conv :=
 Definition spacing_prod (n : Z) (sps : Qc) : Qc := rnd53 (Qcz n * sps)%Qc.
 Definition spaced_prod (n nbuckets : Z) (sps : Qc) : Qc := rnd53 (Qcz (wrap32 (n * nbuckets)) * sps)%Qc.
 
-(** tree after `fix:` d13e4f1: spaced_bins = max(ceil(..), size_t(nbuckets-1)*spacing_bins + ps_bins)
+(** tree after `fix:` 899923d: spaced_bins = max(ceil(..), size_t(nbuckets-1)*spacing_bins + ps_bins)
     before the rounding; [nbuckets-1] is a uint32 difference, the rest a 64-bit expression *)
 Definition spaced_floor (n nbuckets sp : Z) : Z := w64 (wrap32 (nbuckets - 1) * sp + n).
 
@@ -164,7 +164,7 @@ Definition fp_events (n dt : Z) (zb : Qc) (damping : bool) : option (list fp_ev)
             ++ zero_row 4 (wrap32 (n - 2)) ++ zero_row 4 (wrap32 (n - 1)))
     end.
 
-(** main.cpp (tree after `fix:` 5c817d5) builds the cubic map only when
+(** main.cpp (tree after `fix:` de00324) builds the cubic map only when
     [zerobin >= 1 && zerobin <= ps_bins-2] (float comparisons; ps_bins-2 is exact below 2^24) *)
 Definition fp_guard (n : Z) (zb : Qc) : bool :=
   Qle_bool 1 (this zb) && Qle_bool (this zb) (inject_Z (n - 2)).
